@@ -98,9 +98,10 @@ func (x *Exec) exec(fr *frame, ins ssa.Instruction) {
 			panic(p)
 		}
 	case *ssa.Go:
-		// sequentialised: the goroutine body runs to completion at the spawn point
+		// sequentialised: the goroutine body runs to completion at the spawn point; if its first blocking action is
+		// a Lock of a mutex that is held right now, it is parked and run when that mutex is released
 		fn, args := x.prepareCall(fr, &ins.Call)
-		x.callValue(fn, args, &ins.Call)
+		x.runGoroutine(parkedGo{fn: fn, args: args, call: &ins.Call})
 	case *ssa.Select:
 		fr.regs[ins] = x.selectOp(fr, ins)
 	case *ssa.Send:
